@@ -90,9 +90,10 @@ func (c *chatHandler) handleLegacyCommand(packet *chat.LegacyChat) error {
 			return nil
 		}
 		if !hasRun {
+			// Forward the command as the event left it, like the newer protocol handlers.
 			return (&chat.Builder{
 				Protocol: c.player.Protocol(),
-				Message:  packet.Message,
+				Message:  "/" + commandToRun,
 				Sender:   c.player.ID(),
 			}).ToServer()
 		}
